@@ -141,3 +141,27 @@ package langserver
 //@   loop range:fileErrVec step [every-other-error-is-published] !(oneErr.ErrType == common.CheckErrorSyntax && ignoreSyntax)
 //@        ==> len(diagnostics.Diagnostics) == prev(len(diagnostics.Diagnostics)) + 1
 //@ end
+
+// ---- C02: the document-sync handlers hand the client's data on unmodified ----
+// didOpen / didSave store exactly the text of the notification under the document's path; didChange applies ALL content
+// changes of the notification, in their order, to the text currently cached for that path and stores the result;
+// didClose drops the cached text.
+//@ func (*LspServer).TextDocumentDidOpen
+//@   props C02
+//@   at call SetFileContent#0 before assert[open-stores-the-text-of-the-notification] streq(arg1, strFile) && view(arg2) == vs.TextDocument.Text
+//@ end
+//@ func (*LspServer).TextDocumentDidChange
+//@   props C02
+//@   requires[protocol-conformant] forall(k, 0, len(vs.ContentChanges), vs.ContentChanges[k].Range == nil ==> vs.ContentChanges[k].RangeLength == 0)
+//@   at call ApplyContentChanges#0 before assert[every-change-of-the-notification-is-applied-in-order] streq(arg1, strFile) && arg2 == contents && arg3 == vs.ContentChanges
+//@   at call SetFileContent#0 before assert[change-stores-the-result-of-the-edits] streq(arg1, strFile) && arg2 == changeContents && hits("ApplyContentChanges#0") == 1
+//@   at call GetFileContent#0 before assert[edits-apply-to-the-cached-text-of-that-document] streq(arg1, strFile)
+//@ end
+//@ func (*LspServer).TextDocumentDidSave
+//@   props C02
+//@   at call SetFileContent#0 before assert[save-stores-the-text-of-the-notification] streq(arg1, strFile) && view(arg2) == deref(vs.Text)
+//@ end
+//@ func (*LspServer).TextDocumentDidClose
+//@   props C02
+//@   at call DelFileContent#0 before assert[close-drops-the-cached-text-of-that-document] streq(arg1, strFile)
+//@ end
